@@ -1,4 +1,6 @@
 import HappyProofs.C10.TuaWin
+import HappyProofs.C10.TuaSpecAD
+import HappyProofs.C10.AdaptiveCredit
 import HappyProofs.C10.EntityInv
 /-!
 # C10 — property theorems
@@ -179,6 +181,213 @@ example : (FW.tua ⟨10, 1⟩ ⟨some 10, 1⟩ 13).2 = 7 ∧ (FW.tua ⟨10, 1⟩
     FW.Ok ⟨10, 1⟩ ⟨some 10, 1⟩ 13 :=
   ⟨by decide, by decide, by decide, fun w h => by cases h; exact ⟨1, by decide, by decide⟩⟩
 example : NotBefore (some 3) 5 := fun l h => by cases h; decide
+
+/-! ## time_until_available over whole runs -/
+
+/-- After `time_until_available(t) = w`, **no** `try_acquire` at any time in `[t, t + w)` is granted,
+    whatever refused acquires and further `time_until_available` calls are made in between: every
+    timestamp admitted by *any* continuation `ops` (times not decreasing) is `≥ t + w`.  All five
+    policies; for the adaptive one up to the next rate change (`NoFeedback`). -/
+theorem tua_positive_blocks_run :
+    (∀ (c : TBCfg) (s : TB) (t : Nat) (ops : List Op), 0 < c.p → NotBefore s.last t → MonoOps t ops →
+      ∀ x ∈ (tbPolicy c).admitted (TB.tua c s t).1 ops, t + (TB.tua c s t).2 ≤ x) ∧
+    (∀ (c : LBCfg) (s : LB) (t : Nat) (ops : List Op), 0 < c.p → NotBefore s.last t → MonoOps t ops →
+      ∀ x ∈ (lbPolicy c).admitted (LB.tua c s t).1 ops, t + (LB.tua c s t).2 ≤ x) ∧
+    (∀ (c : WCfg) (s : SW) (t : Nat) (ops : List Op), MonoOps t ops →
+      ∀ x ∈ (swPolicy c).admitted (SW.tua c s t).1 ops, t + (SW.tua c s t).2 ≤ x) ∧
+    (∀ (c : WCfg) (s : FW) (t : Nat) (ops : List Op), 0 < c.W → FW.Ok c s t → MonoOps t ops →
+      ∀ x ∈ (fwPolicy c).admitted (FW.tua c s t).1 ops, t + (FW.tua c s t).2 ≤ x) ∧
+    (∀ (c : ADCfg) (s : AD) (t : Nat) (ops : List Op), 0 < s.p → NotBefore s.last t → MonoOps t ops →
+      NoFeedback ops → ∀ x ∈ AD.admitted c (AD.tua c s t).1 ops, t + (AD.tua c s t).2 ≤ x) :=
+  ⟨fun c s t ops hp h hm => tb_tua_blocks_run c s t ops hp h hm,
+   fun c s t ops hp h hm => lb_tua_blocks_run c s t ops hp h hm,
+   fun c s t ops hm => sw_tua_blocks_run c s t ops hm,
+   fun c s t ops hW h hm => fw_tua_blocks_run c hW s t ops h hm,
+   fun c s t ops hp h hm hn => ad_tua_blocks_run c s t ops hp h hm hn⟩
+
+-- token bucket (cap 3, 1 unit/ns, one token = 3 units), empty at 0: wait 3; the acquires at 1 and 2 and
+-- the second time_until_available in between change nothing; the acquire at 3 is granted
+example : (TB.tua ⟨3, 1, 3⟩ ⟨0, some 0⟩ 0).2 = 3 ∧
+    (tbPolicy ⟨3, 1, 3⟩).admitted (TB.tua ⟨3, 1, 3⟩ ⟨0, some 0⟩ 0).1 [.acq 1, .tua 1, .acq 2, .acq 3, .acq 3] = [3] := by
+  decide
+example : MonoOps 0 [.acq 1, .tua 1, .acq 2, .acq 3, .acq 3] ∧ NoFeedback [.acq 1, .tua 1, .acq 2, .acq 3, .acq 3] :=
+  ⟨by simp [MonoOps, Op.time], by simp [NoFeedback]⟩
+-- sliding window (W = 10, N = 1) holding 5: wait 10 at 5; refused at 9 and at 15 (closed window), granted at 16
+example : (SW.tua ⟨10, 1⟩ ⟨[5]⟩ 5).2 = 10 ∧
+    (swPolicy ⟨10, 1⟩).admitted (SW.tua ⟨10, 1⟩ ⟨[5]⟩ 5).1 [.acq 9, .tua 9, .acq 14, .acq 15, .acq 16] = [16] := by decide
+
+/-- The executable Spec predicate `blocksOK` — "after `time_until_available(t) = w` no acquire before
+    `t + w` succeeds (up to the next rate change)" over a whole transcript — holds of the model's
+    transcript of **every** run from every good state: each of the run's `time_until_available` calls is
+    honoured by all later calls. -/
+theorem tua_blocks_spec :
+    (∀ (c : TBCfg) (s : TB) (now : Nat) (ops : List Op), 0 < c.p → NotBefore s.last now → MonoOps now ops →
+      blocksOK ((tbPolicy c).obs s ops) = true) ∧
+    (∀ (c : LBCfg) (s : LB) (now : Nat) (ops : List Op), 0 < c.p → NotBefore s.last now → MonoOps now ops →
+      blocksOK ((lbPolicy c).obs s ops) = true) ∧
+    (∀ (c : WCfg) (s : SW) (now : Nat) (ops : List Op), MonoOps now ops →
+      blocksOK ((swPolicy c).obs s ops) = true) ∧
+    (∀ (c : WCfg) (s : FW) (now : Nat) (ops : List Op), 0 < c.W → FW.Ok c s now → MonoOps now ops →
+      blocksOK ((fwPolicy c).obs s ops) = true) ∧
+    (∀ (c : ADCfg) (s : AD) (now : Nat) (ops : List Op), ADOk c → 0 < c.pmin → s.InRange c →
+      NotBefore s.last now → MonoOps now ops → blocksOK (AD.obs c s ops) = true) :=
+  ⟨fun c s now ops hp h hm => tb_blocks_spec c hp s now ops h hm,
+   fun c s now ops hp h hm => lb_blocks_spec c hp s now ops h hm,
+   fun c s now ops hm => sw_blocks_spec c s now ops hm,
+   fun c s now ops hW h hm => fw_blocks_spec c hW s now ops h hm,
+   fun c s now ops hc hmin hr h hm => ad_blocks_spec c hc hmin ops s now hr h hm⟩
+
+example : (tbPolicy ⟨3, 1, 3⟩).obs ⟨0, some 0⟩ [.tua 0, .acq 1, .tua 1, .acq 2, .acq 3] =
+    [.tua 0 3, .acq 1 false, .tua 1 2, .acq 2 false, .acq 3 true] := by rfl
+example : blocksOK [.tua 0 3, .acq 1 false, .tua 1 2, .acq 2 false, .acq 3 true] = true ∧
+    blocksOK [.tua 0 3, .acq 1 false, .acq 2 true] = false := by decide
+-- adaptive: the promise ends at a rate change (the `fb` record), as in the Spec
+example : AD.obs ⟨2, 8, 6, 1, 2, 4, 1, 8⟩ ⟨2, 0, some 0⟩ [.tua 0, .acq 1, .succ 1, .acq 2] =
+    [.tua 0 4, .acq 1 false, .fb 1 8, .acq 2 true] := by rfl
+example : blocksOK [.tua 0 4, .acq 1 false, .fb 1 8, .acq 2 true] = true ∧
+    blocksOK [.tua 0 4, .acq 1 false, .acq 2 true] = false := by decide
+
+/-! ## the window / spacing bounds from every reachable state
+
+`LBHist`, `SWHist`, `FWHist` (`HappyProofs/C10/Reach.lean`) relate a policy state to the list of
+everything admitted so far.  They hold of the fresh policy, are preserved by every operation
+(`policy_hist_reachable`), and give the bounds for history ++ future from any state satisfying them. -/
+
+/-- Leaky bucket, any reachable state: the history followed by all future admissions is correctly
+    spaced (no assumption on times). -/
+theorem leaky_spacing_reachable (c : LBCfg) (s : LB) (hist : List Nat) (now : Nat) (h : LBHist c s hist now)
+    (ops : List Op) : spacingOK c.p c.one 0 (hist ++ (lbPolicy c).admitted s ops) = true :=
+  lb_hist_bound c s hist now h ops
+
+/-- … and from *any* state whatsoever: the future admissions are correctly spaced among themselves and
+    from the state's last leak time. -/
+theorem leaky_spacing_any_state (c : LBCfg) (s : LB) (ops : List Op) :
+    spacingOK c.p c.one 0 ((lbPolicy c).admitted s ops) = true ∧
+    (∀ l, s.last = some l → spacingOK c.p c.one 0 (l :: (lbPolicy c).admitted s ops) = true) := by
+  obtain ⟨a, b⟩ := lb_spacing c ops s
+  refine ⟨?_, a⟩
+  cases hl : s.last with
+  | none => exact b hl
+  | some l =>
+    have := a l hl
+    cases hx : (lbPolicy c).admitted s ops with
+    | nil => rfl
+    | cons x xs =>
+      rw [hx] at this
+      simp only [spacingOK, Bool.and_eq_true] at this
+      exact this.2
+
+/-- Sliding window, any reachable state: at most `N` admissions in every closed window `[a, a + W]` of
+    the history followed by all future admissions. -/
+theorem sliding_window_bound_reachable (c : WCfg) (s : SW) (hist : List Nat) (now : Nat)
+    (h : SWHist c s hist now) (ops : List Op) (hm : MonoOps now ops) (a : Nat) :
+    cnt a (a + c.W) (hist ++ (swPolicy c).admitted s ops) ≤ c.N :=
+  sw_hist_bound c s hist now h ops hm a
+
+/-- Fixed window, any reachable state: at most `N` per aligned window and `2N` per window-length
+    interval, for the history followed by all future admissions. -/
+theorem fixed_window_bounds_reachable (c : WCfg) (hW : 0 < c.W) (s : FW) (hist : List Nat) (now : Nat)
+    (h : FWHist c s hist now) (ops : List Op) (hm : MonoOps now ops) :
+    (∀ k, cntWin c.W k (hist ++ (fwPolicy c).admitted s ops) ≤ c.N) ∧
+    (∀ a, cnt a (a + c.W) (hist ++ (fwPolicy c).admitted s ops) ≤ 2 * c.N) :=
+  fw_hist_bound c hW s hist now h ops hm
+
+/-- reachability closure: the three history invariants hold of the fresh policy with the empty
+    history, are preserved by every single operation whose time does not decrease, and therefore hold
+    of the state reached by any run, with exactly the run's admitted list as history. -/
+theorem policy_hist_reachable :
+    (∀ (c : LBCfg), LBHist c ⟨none⟩ [] 0 ∧
+      (∀ s hist now o, LBHist c s hist now → now ≤ o.time →
+        LBHist c ((lbPolicy c).step s o) (hist ++ (lbPolicy c).admitted s [o]) o.time) ∧
+      (∀ ops, MonoOps 0 ops →
+        LBHist c ((lbPolicy c).run ⟨none⟩ ops) ((lbPolicy c).admitted ⟨none⟩ ops) (endTime 0 ops))) ∧
+    (∀ (c : WCfg), SWHist c ⟨[]⟩ [] 0 ∧
+      (∀ s hist now o, SWHist c s hist now → now ≤ o.time →
+        SWHist c ((swPolicy c).step s o) (hist ++ (swPolicy c).admitted s [o]) o.time) ∧
+      (∀ ops, MonoOps 0 ops →
+        SWHist c ((swPolicy c).run ⟨[]⟩ ops) ((swPolicy c).admitted ⟨[]⟩ ops) (endTime 0 ops))) ∧
+    (∀ (c : WCfg), 0 < c.W → FWHist c ⟨none, 0⟩ [] 0 ∧
+      (∀ s hist now o, FWHist c s hist now → now ≤ o.time →
+        FWHist c ((fwPolicy c).step s o) (hist ++ (fwPolicy c).admitted s [o]) o.time) ∧
+      (∀ ops, MonoOps 0 ops →
+        FWHist c ((fwPolicy c).run ⟨none, 0⟩ ops) ((fwPolicy c).admitted ⟨none, 0⟩ ops) (endTime 0 ops))) := by
+  refine ⟨fun c => ?_, fun c => ?_, fun c hW => ?_⟩
+  · have h0 : LBHist c ⟨none⟩ [] 0 := ⟨rfl, rfl⟩
+    refine ⟨h0, lb_hist_step c, fun ops hm => ?_⟩
+    simpa using hist_run (lbPolicy c) (LBHist c) (lb_hist_step c) ops _ [] 0 h0 hm
+  · have h0 : SWHist c ⟨[]⟩ [] 0 := ⟨[], rfl, fun _ h => by simp at h, fun _ => Nat.zero_le _⟩
+    refine ⟨h0, sw_hist_step c, fun ops hm => ?_⟩
+    simpa using hist_run (swPolicy c) (SWHist c) (sw_hist_step c) ops _ [] 0 h0 hm
+  · have h0 : FWHist c ⟨none, 0⟩ [] 0 := ⟨⟨fun _ => rfl, fun w h => by cases h⟩, fun _ => Nat.zero_le _⟩
+    refine ⟨h0, fw_hist_step c hW, fun ops hm => ?_⟩
+    simpa using hist_run (fwPolicy c) (FWHist c) (fw_hist_step c hW) ops _ [] 0 h0 hm
+
+-- non-vacuity: a sliding-window state in mid-run (the entry 0 already pruned), its history, and the
+-- invariant obtained from the closure theorem
+example : ((swPolicy ⟨10, 2⟩).run ⟨[]⟩ [.acq 0, .acq 5, .acq 10, .acq 11]).log = [5, 11] ∧
+    (swPolicy ⟨10, 2⟩).admitted ⟨[]⟩ [.acq 0, .acq 5, .acq 10, .acq 11] = [0, 5, 11] := by decide
+example : SWHist ⟨10, 2⟩ ⟨[5, 11]⟩ [0, 5, 11] 11 :=
+  (policy_hist_reachable.2.1 ⟨10, 2⟩).2.2 [.acq 0, .acq 5, .acq 10, .acq 11] (by simp [MonoOps, Op.time])
+example : (swPolicy ⟨10, 2⟩).admitted ⟨[5, 11]⟩ [.acq 12, .acq 15, .acq 16, .acq 21, .acq 22] = [16, 22] := by decide
+-- fixed window in mid-run: window [10, 20) holds one admission
+example : FWHist ⟨10, 1⟩ ⟨some 10, 1⟩ [9, 10] 19 :=
+  (policy_hist_reachable.2.2 ⟨10, 1⟩ (by decide)).2.2 [.acq 9, .acq 9, .acq 10, .acq 19] (by simp [MonoOps, Op.time])
+example : LBHist ⟨1, 4⟩ ⟨some 4⟩ [0, 4] 7 :=
+  (policy_hist_reachable.1 ⟨1, 4⟩).2.2 [.acq 0, .acq 3, .acq 4, .acq 7] (by simp [MonoOps, Op.time])
+
+/-! ## adaptive bucket: the sharp bound -/
+
+/-- **Adaptive, credit bound** (any state, any operation list, no side condition): admissions · one
+    token + tokens left ≤ tokens at the start + Σ over the `try_acquire` / `time_until_available` calls
+    of (rate in force at the call) × (time since the previous call) — the discrete "capacity + ∫ rate"
+    the code implements (`AD.credit`). -/
+theorem adaptive_credit_bound (c : ADCfg) (s : AD) (ops : List Op) :
+    (AD.admitted c s ops).length * c.one + (AD.run c s ops).tok ≤ s.tok + AD.credit c s ops :=
+  ad_credit_bound c ops s
+
+/-- between two rate changes this is the bucket bound of the **current** rate:
+    admissions · one + tokens left ≤ tokens at the start + `current_rate` × elapsed -/
+theorem adaptive_current_rate_bound (c : ADCfg) (s : AD) (l : Nat) (ops : List Op) (hl : s.last = some l)
+    (hm : MonoOps l ops) (hn : NoFeedback ops) :
+    (AD.admitted c s ops).length * c.one + (AD.run c s ops).tok ≤ s.tok + s.p * (endTime l ops - l) := by
+  have := ad_credit_bound c ops s
+  rw [ad_credit_const c ops s l hl hm hn] at this
+  exact this
+
+/-- the credit never exceeds `pmax × elapsed`: the credit bound implies the `pmax` bound -/
+theorem adaptive_credit_le_pmax (c : ADCfg) (hc : ADOk c) (s : AD) (hs : s.InRange c) (l : Nat) (ops : List Op)
+    (hl : s.last = some l) (hm : MonoOps l ops) :
+    AD.credit c s ops ≤ c.pmax * (endTime l ops - l) :=
+  ad_credit_le_pmax c hc ops s l l hs (fun l' hl' => by rw [hl] at hl'; cases hl'; exact ⟨Nat.le_refl _, Nat.le_refl _⟩)
+    (Nat.le_refl _) hm
+
+/-- rates 1…8 units/ns, one failure drops 8 → 1, one success raises 1 → 8, window 10 ns, one token = 40
+    units; the bucket starts full at rate 8.  Twice: drain, `record_failure`, wait 10 ns at rate 1,
+    `record_success` just before the next acquire — which is then credited 8 × 10 units. -/
+def adNaiveWitness : List Op :=
+  [.acq 0, .acq 0, .fail 0, .succ 10, .acq 10, .acq 10, .fail 10, .succ 20, .acq 20, .acq 20]
+
+/-- the naive reading "admissions ≤ capacity + ∫ (rate in force at each instant) dt" is **false** of
+    the code, even with the capacity of the largest rate: `_refill` applies the rate in force at the
+    call to the whole time since the previous call.  Here 6 admissions (240 units) against
+    capacity 80 + ∫ = 20. -/
+theorem adaptive_naive_integral_bound_false :
+    ¬ (∀ (c : ADCfg) (s : AD) (l : Nat) (ops : List Op), ADOk c → s.InRange c → s.last = some l → MonoOps l ops →
+        (AD.admitted c s ops).length * c.one ≤ max (c.cap c.pmax) s.tok + AD.rateIntegral c s l ops) := by
+  intro h
+  have := h ⟨1, 8, 7, 1, 8, 10, 1, 40⟩ ⟨8, 80, some 0⟩ 0 adNaiveWitness ⟨by decide, by decide⟩
+    ⟨by decide, by decide⟩ rfl (by simp [adNaiveWitness, MonoOps, Op.time])
+  revert this
+  decide
+
+example : AD.admitted ⟨1, 8, 7, 1, 8, 10, 1, 40⟩ ⟨8, 80, some 0⟩ adNaiveWitness = [0, 0, 10, 10, 20, 20] ∧
+    AD.credit ⟨1, 8, 7, 1, 8, 10, 1, 40⟩ ⟨8, 80, some 0⟩ adNaiveWitness = 160 ∧
+    AD.rateIntegral ⟨1, 8, 7, 1, 8, 10, 1, 40⟩ ⟨8, 80, some 0⟩ 0 adNaiveWitness = 20 ∧
+    (AD.run ⟨1, 8, 7, 1, 8, 10, 1, 40⟩ ⟨8, 80, some 0⟩ adNaiveWitness).tok = 0 := by decide
+-- between rate changes: rate 2, tokens 0 at 0, one token = 8: admissions at 4 and 8, none in between
+example : AD.admitted ⟨2, 8, 6, 1, 2, 4, 1, 8⟩ ⟨2, 0, some 0⟩ [.acq 3, .acq 4, .tua 5, .acq 7, .acq 8] = [4, 8] ∧
+    endTime 0 [.acq 3, .acq 4, .tua 5, .acq 7, .acq 8] = 8 ∧
+    NoFeedback [.acq 3, .acq 4, .tua 5, .acq 7, .acq 8] := ⟨by decide, by decide, by simp [NoFeedback]⟩
 
 /-! ## the rate-limited entity (any policy, any schedule of request and poll deliveries) -/
 
